@@ -231,13 +231,13 @@ var stubCtors = map[string]func() ua.Request{
 	"QueryFirstRequest": func() ua.Request {
 		return &ua.QueryFirstRequest{View: &ua.ViewDescription{ViewID: ua.NewTwoByteNodeID(0)}, Filter: &ua.ContentFilter{}}
 	},
-	"QueryNextRequest":    func() ua.Request { return &ua.QueryNextRequest{} },
-	"HistoryReadRequest":  func() ua.Request { return &ua.HistoryReadRequest{HistoryReadDetails: ua.NewExtensionObject(nil)} },
-	"HistoryUpdateRequest": func() ua.Request { return &ua.HistoryUpdateRequest{} },
-	"CallRequest":         func() ua.Request { return &ua.CallRequest{} },
-	"ModifySubscriptionRequest": func() ua.Request { return &ua.ModifySubscriptionRequest{} },
-	"SetPublishingModeRequest":  func() ua.Request { return &ua.SetPublishingModeRequest{} },
-	"RepublishRequest":          func() ua.Request { return &ua.RepublishRequest{} },
+	"QueryNextRequest":             func() ua.Request { return &ua.QueryNextRequest{} },
+	"HistoryReadRequest":           func() ua.Request { return &ua.HistoryReadRequest{HistoryReadDetails: ua.NewExtensionObject(nil)} },
+	"HistoryUpdateRequest":         func() ua.Request { return &ua.HistoryUpdateRequest{} },
+	"CallRequest":                  func() ua.Request { return &ua.CallRequest{} },
+	"ModifySubscriptionRequest":    func() ua.Request { return &ua.ModifySubscriptionRequest{} },
+	"SetPublishingModeRequest":     func() ua.Request { return &ua.SetPublishingModeRequest{} },
+	"RepublishRequest":             func() ua.Request { return &ua.RepublishRequest{} },
 	"TransferSubscriptionsRequest": func() ua.Request { return &ua.TransferSubscriptionsRequest{} },
 	"ModifyMonitoredItemsRequest":  func() ua.Request { return &ua.ModifyMonitoredItemsRequest{} },
 	"SetTriggeringRequest":         func() ua.Request { return &ua.SetTriggeringRequest{} },
